@@ -131,6 +131,14 @@ func (g *c07Engine) judge(cp *c07Plan, st *c07Stats) (*histVerdict, error) {
 			continue
 		}
 		need := op.N + op.N/3
+		devPanicked := false
+		for _, rec := range res.Reads[i] {
+			devPanicked = devPanicked || rec.Err == "panic-str" || rec.Err == "panic-err"
+		}
+		if o.Panic != "" && devPanicked {
+			st.newFail++
+			continue // the source itself panicked; letting it through is fail-closed
+		}
 		if o.Panic != "" {
 			return &histVerdict{Class: "panic", OpIdx: i, Key: "panic/" + hk, Detail: fmt.Sprintf("op %d NewMnemonic(%d, lang %d) panicked: %s", i, op.N, op.Lang, o.Panic)}, nil
 		}
@@ -349,7 +357,9 @@ func procScript(rng *plan.Rand, news int) []plan.DevStep {
 		case x < 17:
 			s = append(s, plan.DevStep{})
 		case x < 19:
-			if rng.Intn(3) == 0 { // a burst of transient failures, as a device under load gives them
+			if rng.Intn(9) == 0 { // a dying device: Read panics
+				s = append(s, plan.DevStep{E: []string{"panic-str", "panic-err"}[rng.Intn(2)]})
+			} else if rng.Intn(3) == 0 { // a burst of transient failures, as a device under load gives them
 				for b := 0; b < rng.Range(2, 5); b++ {
 					s = append(s, plan.DevStep{E: []string{"temp", "eagain", "eintr"}[rng.Intn(3)]})
 				}
